@@ -60,7 +60,17 @@ def script_for(name, kind, r, model):
         return None
     strong = sorted((r.get("vars") or {}).get(kind, []))
     tools = sorted((r.get("tools") or {}).get(kind, []))
-    lines = ["{", '  echo "token=%s"' % tok]
+    lines = []
+    if model.get("ctl"):
+        # step control (C05/C06): fail after partial output, kill bob during the script, or sleep, when the harness asks for it
+        out0 = {"checkout": "gen-%s.txt" % name.replace("/", "_"), "build": "manifest.txt", "package": "manifest.txt"}[kind]
+        tag = "%s.%s" % (name.replace("/", "_"), kind)
+        lines += ['_ctl="${VERIF_CTL:-/nonexistent}/%s"' % tag,
+                  'if [ -e "$_ctl.sleep" ]; then sleep "$(cat "$_ctl.sleep")"; fi',
+                  'echo "START %s %s $PWD $$ $EPOCHREALTIME" >> "${VERIF_EVLOG:-/dev/null}"' % (name, kind),
+                  'if [ -e "$_ctl.fail" ] || [ -e "$_ctl.kill" ]; then echo "partial output of an aborted run" > %s; %s' % (out0, ("echo stray > stray-partial; " if kind == "package" else "")),
+                  '  if [ -e "$_ctl.kill" ]; then kill -9 "$(cat "${VERIF_CTL}/bobpid")"; sleep 30; fi; exit 1; fi']
+    lines += ["{", '  echo "token=%s"' % tok]
     for v in strong:
         lines.append('  echo "%s=${%s-<unset>}"' % (v, v))
     if kind != "checkout":
@@ -83,6 +93,8 @@ def script_for(name, kind, r, model):
             lines.append("echo lib-%s > lib/lib.txt; echo lib2-%s > lib2/lib.txt" % (tok, tok))
     if model.get("evlog"):
         lines.append('echo "EXEC %s %s $PWD" >> "${VERIF_EVLOG:-/dev/null}"' % (name, kind))
+    if model.get("ctl"):
+        lines.append('echo "END %s %s $PWD $$ $EPOCHREALTIME" >> "${VERIF_EVLOG:-/dev/null}"' % (name, kind))
     inc = r.get("includes")
     if inc and inc.get("kind", "build") == kind:
         lines.append("cat $<<%s/%s>> > /dev/null" % (inc["dir"], inc["pattern"]))
